@@ -29,7 +29,8 @@ RULE = (
 )
 RULE += (
     " After every operation on a finished batch: its item list never grows (also after an add-item that was "
-    "rightly refused) and lists no pending item."
+    "rightly refused) and lists no pending item. Hook kind followup: the _cancel() hook sends a new request "
+    "through the service's active batch; it must join a fresh batch and be served."
 )
 ASSUMPTIONS = ["items are not completed by hand before the flush (that is C10's territory)"]
 UNIT_TIMEOUT = {"quick": 300, "thorough": 2400}
